@@ -76,6 +76,10 @@ HTr(v) == v + 5
 
 \* ---- operation classes -----------------------------------------------------------------------
 ValueOps == {"ctor_value", "assign_value"}
+\* aliasing converting assignment  o = <reference to o's own held value>  ([variant.assign]/13: "if *this holds a T_j,
+\* assigns to the value contained", [optional.assign]: "if *this contains a value, assigns to the contained value"):
+\* the value is unchanged and the contained object is neither destroyed nor constructed
+SelfOps == {"assign_self"}
 UnexOps == {"ctor_unexpected", "assign_unexpected"}
 PlaceOps == {"ctor_inplace", "ctor_inplace_t", "emplace", "emplace_t"}
 CopyOps == {"ctor_copy", "assign_copy"}
@@ -94,7 +98,7 @@ Doubled(kind, op) == (op = "and_then" /\ kind \in {"optional", "expected"}) \/ (
 
 OpsOf(kind) ==
     CASE kind = "optional" ->
-            ClearOps \cup ValueOps \cup {"ctor_inplace", "emplace"} \cup TwoObjOps \cup ConvOps
+            ClearOps \cup ValueOps \cup SelfOps \cup {"ctor_inplace", "emplace"} \cup TwoObjOps \cup ConvOps
             \cup {"value_or_mv", "deref_mv", "and_then", "or_else", "transform", "deref", "arrow", "value", "value_or",
                   "cmp_value", "cmp_value_r", "cmp_null", "cmp_null_r", "cmp_mixed", "cmp_mixed_r"}
       [] kind = "optref" ->
@@ -102,9 +106,9 @@ OpsOf(kind) ==
             \cup {"deref", "arrow", "value", "value_or", "write_through", "and_then", "or_else", "transform",
                   "cmp_value", "cmp_value_r", "cmp_null", "cmp_null_r", "conv_ref"}
       [] kind = "variant" ->
-            {"ctor_default", "visit_mv"} \cup ValueOps \cup PlaceOps \cup TwoObjOps
+            {"ctor_default", "visit_mv"} \cup ValueOps \cup SelfOps \cup PlaceOps \cup TwoObjOps
       [] kind = "expected" ->
-            {"ctor_default", "ctor_inplace", "emplace"} \cup ValueOps \cup UnexOps \cup TwoObjOps
+            {"ctor_default", "ctor_inplace", "emplace"} \cup ValueOps \cup SelfOps \cup UnexOps \cup TwoObjOps
             \cup {"value_or_mv", "deref_mv", "error_mv", "and_then", "or_else", "transform", "transform_error",
                   "deref", "arrow", "value", "error", "value_or", "error_or", "cmp_value", "cmp_unexpected", "unex"}
       [] OTHER -> {}
@@ -118,6 +122,10 @@ Pre(kind, alts, op, o, x, s) ==
                 ELSE IF kind = "optref" THEN x.v \in 1..2
                 ELSE IF kind = "expected" THEN Constructible(x.t, alts[1])
                 ELSE Constructible(x.t, alts[2])
+         [] op \in SelfOps ->
+                \* the held alternative is the one a value of its own type selects
+                IF kind = "variant" THEN Selectable(Ty(alts, ob.idx), alts) /\ Select(Ty(alts, ob.idx), alts) = ob.idx + 1
+                ELSE Engaged(kind, ob)
          [] op \in UnexOps -> Constructible(x.t, alts[2])
          [] op \in PlaceOps ->
                 /\ x.i \in 0..(n - 1)
@@ -175,6 +183,7 @@ Eff(kind, alts, op, o, x, s) ==
              ret |-> <<x.si, IF x.si = 1 /\ x.t = "trk" THEN MOVED ELSE x.v>>]
       [] op \in ClearOps \cup ValueOps \cup UnexOps \cup {"ctor_inplace", "ctor_inplace_t"} \cup CopyOps ->
             [st |-> [s EXCEPT ![o] = NewT(kind, alts, op, o, x, s)], ret |-> <<>>]
+      [] op \in SelfOps -> [st |-> s, ret |-> <<>>]
       [] op = "value_or" -> [st |-> s, ret |-> <<IF e THEN pv ELSE x.d>>]
       [] op = "value_or_mv" -> [st |-> IF e THEN [s EXCEPT ![o] = Mv(alts, ob)] ELSE s, ret |-> <<IF e THEN pv ELSE x.d>>]
       [] op = "error_or" -> [st |-> s, ret |-> <<IF e THEN x.d ELSE pv>>]
